@@ -79,7 +79,8 @@ type bound struct {
 	Tags []string
 }
 
-var boundTS = func() *schema.TypeSystem {
+// newBoundTS compiles the record schema; every simulated world gets its own (set in RunTape).
+func newBoundTS() *schema.TypeSystem {
 	ts, err := ipld.LoadSchemaBytes([]byte(`
 type Rec struct {
 	Name String
@@ -95,7 +96,9 @@ type RecRenamed struct {
 		panic(err)
 	}
 	return ts
-}()
+}
+
+var boundTS *schema.TypeSystem // the running world's; one world runs at a time per process
 
 func recordValue(t *sim.Tape) *model.V {
 	tags := &model.V{K: model.List}
@@ -138,6 +141,7 @@ type c05val struct {
 
 func (S05) RunTape(t *sim.Tape, st *sim.Stats, keepLog bool) *sim.Outcome {
 	o := &sim.Outcome{}
+	boundTS = newBoundTS()
 	s := sim.NewSim(t, sim.NewChanBaton())
 	s.Log.Keep = keepLog
 	s.MaxSteps = 400000
